@@ -2,6 +2,7 @@ import HpxVerif.Lemmas.CoverLemmas
 import HpxVerif.Lemmas.ConeReal
 import HpxVerif.Props.C16
 import HpxVerif.Lemmas.CellExtent4
+import HpxVerif.Lemmas.ConeBmoc3
 
 set_option autoImplicit false   -- an unknown identifier in a statement is an error, never a new variable
 
@@ -128,5 +129,71 @@ theorem h1_equatorial_cone (cfg : Cfg) (lon lat r : ℝ) (hA : |lat| + r < tl) (
 
 
 end EquatorialGeometry
+
+
+/-! ## no-miss on the RETURNED BMOC of `cone_coverage_approx` (and of the `custom` variant), equatorial cones, both profiles
+
+`IsStartCell cfg lon lat r ds root` (`Lemmas/ConeBmoc2.lean`) is the explicit start list of the code (12 base cells, or the
+cell of the centre at the best starting depth and its neighbours); the only hypothesis left is that the position lies in
+a strictly equatorial start cell (the "nine cells" claim of C16).  The effect of `pack` (parents replacing four full
+children) and of `to_lower_depth` is included.  In the small-cone branch the reported cell is the ancestor at the requested
+depth of the tested cell; it can be centred on the transition latitude, for which `InCellEq` is not defined: the statement
+there is on cell numbers / the plane diamond (`InCellPlane`), upgraded to `InCellEq` when the ancestor is strictly equatorial. -/
+
+section OnTheReturnedBmoc
+open Hpx Hpx.Hash Hpx.C2V Hpx.C2VReal Hpx.Proj Hpx.Cover Hpx.CellReal Hpx.EnvelopeReal Hpx.TopoLift Hpx.CellExtent Hpx.Bmoc Hpx.Tightness Hpx.EConeEq Hpx.ConeBmoc Real
+
+/-- **T1, `cone_coverage_approx_no_miss_equatorial`** (ℝ, both profiles, every `depth ≤ 29`).  Cone `(lon, lat, r)` with
+    `0 ≤ r`, `|lat| + r < tl`; `b` the BMOC returned by `cone_coverage_approx(depth, lon, lat, r)`.  For every start cell
+    `root` of depth `ds ≤ depth` (`IsStartCell`: one of the twelve base cells, or the cell of the cone centre at the
+    starting depth or one of its neighbours) and every position `q` within `r` of the cone centre that lies in `root`, a
+    strictly equatorial cell, there is an ENTRY of `b` whose cell contains `q` — whether that entry is a cell emitted by
+    the descent or a parent created by the compaction. -/
+theorem cone_coverage_approx_no_miss_equatorial (cfg : Cfg) (depth : ℕ) (lon lat r : ℝ) (hr : 0 ≤ r)
+    (hA : |lat| + r < tl) (b : BMOC) (h : coneCoverageApprox (α := ℝ) cfg depth lon lat r = some b)
+    (ds root : ℕ) (hst : IsStartCell cfg lon lat r ds root) (hds : ds ≤ depth) (q : ℝ × ℝ)
+    (hq : InCellEq ds root q) (hin : adist (lon, lat) q ≤ r) :
+    ∃ e ∈ b.entries, InCellEq (decode e depth).depth (decode e depth).hash q :=
+  Hpx.ConeBmoc.cone_coverage_approx_no_miss_equatorial cfg depth lon lat r hr hA b h ds root hst hds q hq hin
+
+/-- **T1, small-cone branch `depth < ds = best_starting_depth(r)`**: the reported cells are the ancestors at `depth` of the
+    tested cells of depth `ds`.  For every start cell `root` (strictly equatorial) that contains a position `q` of the cone,
+    the BMOC has the entry `(depth, root >> 2(ds − depth))`, flagged partial, and `q` is a position of that cell in the
+    sense of `InCellPlane` — and of `InCellEq` as soon as that ancestor is strictly equatorial. -/
+theorem cone_coverage_approx_no_miss_small (cfg : Cfg) (depth : ℕ) (lon lat r : ℝ) (hr : 0 ≤ r)
+    (hA : |lat| + r < tl) (b : BMOC) (h : coneCoverageApprox (α := ℝ) cfg depth lon lat r = some b)
+    (ds root : ℕ) (hst : IsStartCell cfg lon lat r ds root) (hds : depth < ds) (q : ℝ × ℝ)
+    (hq : InCellEq ds root q) (hin : adist (lon, lat) q ≤ r) :
+    ∃ e ∈ b.entries, (decode e depth).depth = depth ∧ (decode e depth).hash = root >>> ((ds - depth) <<< 1) ∧
+      (decode e depth).full = false ∧ InCellPlane depth (root >>> ((ds - depth) <<< 1)) q ∧
+      (|pcy depth (root >>> ((ds - depth) <<< 1))| < 1 → InCellEq depth (root >>> ((ds - depth) <<< 1)) q) :=
+  Hpx.ConeBmoc.cone_coverage_approx_no_miss_small cfg depth lon lat r hr hA b h ds root hst hds q hq hin
+
+/-- **T1 as a statement on the three-valued state**: the cell number `x` of `q` at the requested depth is not absent
+    from the returned BMOC -/
+theorem cone_coverage_approx_state_not_absent (cfg : Cfg) (depth : ℕ) (lon lat r : ℝ) (hr : 0 ≤ r)
+    (hA : |lat| + r < tl) (b : BMOC) (h : coneCoverageApprox (α := ℝ) cfg depth lon lat r = some b)
+    (ds root : ℕ) (hst : IsStartCell cfg lon lat r ds root) (q : ℝ × ℝ)
+    (hq : InCellEq ds root q) (hin : adist (lon, lat) q ≤ r) :
+    ∃ x, InCellPlane depth x q ∧ (ds ≤ depth → InCellEq depth x q) ∧ stOf depth b.cells x ≠ .abs :=
+  Hpx.ConeBmoc.cone_coverage_approx_state_not_absent cfg depth lon lat r hr hA b h ds root hst q hq hin
+
+/-- **T3, no-miss for `cone_coverage_approx_custom`, `delta_depth ≠ 0`** (ℝ, both profiles).  The descent is run at
+    `deep = depth + delta_depth ≤ 29`, compacted, then degraded to `depth`.  For every start cell `root` (of the descent at
+    `deep`; any start depth) that is strictly equatorial and every position `q` of the cone in it, some ENTRY of the returned
+    BMOC contains `q` (plane sense; `inCellPlane_eq`: in the sense of `InCellEq` when the entry is strictly equatorial):
+    the ancestor at `depth` of a reported deeper cell is kept by `to_lower_depth`. -/
+theorem cone_coverage_approx_custom_no_miss_equatorial (cfg : Cfg) (depth deltaDepth : ℕ) (hdd : deltaDepth ≠ 0)
+    (lon lat r : ℝ) (hr : 0 ≤ r) (hA : |lat| + r < tl) (b : BMOC)
+    (h : coneCoverageApproxCustom (α := ℝ) cfg depth deltaDepth lon lat r = some b)
+    (ds root : ℕ) (hst : IsStartCell cfg lon lat r ds root) (q : ℝ × ℝ)
+    (hq : InCellEq ds root q) (hin : adist (lon, lat) q ≤ r) :
+    ∃ e ∈ b.entries, InCellPlane (decode e depth).depth (decode e depth).hash q ∧
+      ∃ x, InCellPlane (depth + deltaDepth) x q ∧ (ds ≤ depth + deltaDepth → InCellEq (depth + deltaDepth) x q) ∧
+        x / 4 ^ (depth + deltaDepth - (decode e depth).depth) = (decode e depth).hash :=
+  Hpx.ConeBmoc.cone_coverage_approx_custom_no_miss_equatorial cfg depth deltaDepth hdd lon lat r hr hA b h ds root hst q hq hin
+
+
+end OnTheReturnedBmoc
 
 end Hpx.C05
